@@ -17,7 +17,8 @@ TRUSTED = ["theorem create_edges_new_rename (Proofs/InterfacesProofs.v) for id r
 ASSUMPTIONS = ["cells are inserted in construction order, as every parser does"]
 TESTED_NOT_PROVED = ["invariance of the set of equations, of the tensions and of the pressures under cyclic shifts and orientation flips is "
                      "evaluated by the oracle on every case (the invariance of the interface decomposition itself is proved: "
-                     "C07_cell_shift, C07_cell_flip, C07_tissue_shift_flip)"]
+                     "C07_cell_shift, C07_cell_flip, C07_tissue_shift_flip); for renumbering, the minimisers of the relabelled system under a constraint on the sum of the "
+                     "unknowns (zero-sum pressures, mean-one tensions) are the relabelled minimisers: C07_constrained_minimiser_relabels"]
 IMPORTS = "From Forsys Require Import Model.CaseUtil Model.PyList Model.Interfaces.\n"
 
 
